@@ -27,7 +27,7 @@ def run(ctx):
            "rule": "parse: every string of <= %d tokens over a 27-token alphabet (< > / = \" ' ? ! - & ; # a b SP LF CR 1 x <!-- --> <? ?> </ /> &amp; &#65;) "
                    "through both entry points, exactly sized heap copy under ASan, time and memory watchdog, error line/column against the line structure; "
                    "nesting 1..1000 (plain, and with an empty / a non-empty sibling on every level); round trip: element trees with <= 3 elements, <= 2 attributes, values of <= %d tokens over {a \" ' & < > LF CR SP e-acute "
-                   "&#65; &amp;}, non-blank non-adjacent text of <= %d tokens over {a SP / = \" & < LF}; every byte prefix of every serialised tree and of every document with a multi-line comment (truncation inside delimiters, entities, quoted values); bytes: every 7-bit character XML allows, alone / between letters / doubled, as attribute value and as text; sizes: attribute values and texts a^{0,1} c^n z^{0,1,3} for every "
+                   "&#65; &amp;}, non-blank non-adjacent text of <= %d tokens over {a SP / = \" & < LF}; every byte prefix of every serialised tree and of every document with a multi-line comment (truncation inside delimiters, entities, quoted values); bytes: every 7-bit character XML allows, alone / between letters / doubled, as attribute value and as text; references: decimal character references of 20 code points (each power of ten, each UTF-8 length boundary, up to 1114111) with 0..3 leading zeros, as attribute value and as text, against an independent UTF-8 encoder; sizes: attribute values and texts a^{0,1} c^n z^{0,1,3} for every "
                    "escaped character c and n = 0..%d (every reallocation point of the escaper), and wide trees with n = 0..%d and 2^k-1, 2^k, 2^k+1 (k = 8..14) children of three kinds; comments: every tree serialised by the harness with "
                    "one of three comment forms at every token boundary (white-space separated inside tags) and processing instructions with a line break "
                    "before the root; parser reuse: every pair (first document of <= %d tokens, second of <= %d tokens) parsed by one Xml::Parser into one Element - verdict, tree, error line/column/text of the second parse equal those of a fresh parser; plus the Xml::Variant handle histories (copy, assignment, toElement() on shared values)"
